@@ -227,6 +227,29 @@ M("ex_callback_swallow", "exceptions of the user callback are logged and ignored
   ("lbfgsb/main.py", "def initialize_X_and_G(", "def _safe_cb(cb):\n    def w(*a):\n        try:\n            return cb(*a)\n        except Exception:\n            return False\n    return w\n\n\ndef initialize_X_and_G("))
 M("ex_indexerror_cauchy_wide", "the IndexError handler of the Cauchy loop also covers the update of c (swallows user-visible errors)", ["C20"],
   ("lbfgsb/scalar_function.py", "            fx = fun(np.copy(x), *args)\n", "            try:\n                fx = fun(np.copy(x), *args)\n            except IndexError:\n                fx = np.inf\n"))
-M("ex_state_left_behind", "a failing objective leaves a module-level flag that changes later runs", ["C20", "C14"],
+M("ex_state_left_behind", "a failing objective leaves a module-level flag that changes later runs", ["C20"],
   ("lbfgsb/scalar_function.py", "            fx = fun(np.copy(x), *args)\n", "            global _FAILED\n            try:\n                fx = fun(np.copy(x), *args)\n            except Exception:\n                _FAILED = True\n                raise\n            if _FAILED:\n                fx = fx * (1 + 1e-12)\n"),
   ("lbfgsb/scalar_function.py", "FD_METHODS = (\"2-point\", \"3-point\", \"cs\")\n", "FD_METHODS = (\"2-point\", \"3-point\", \"cs\")\n_FAILED = False\n"))
+
+# --- determinism / isolation -----------------------------------------------------------
+M("iso_jac_inplace", "pinned defect: checkpoint.jac scaled in place (reverse of fix 46983ac)", ["C14"],
+  ("lbfgsb/main.py", "    grad = grad * sf.scaling_factor\n", "    grad *= sf.scaling_factor\n"))
+M("iso_module_istate", "module-level internal state shared by all calls", ["C14"],
+  ("lbfgsb/main.py", "    istate = InternalState()\n", "    istate = _ISTATE\n    istate.task_str = \"START\"\n    istate.is_success = False\n    istate.warnflag = 2\n    if checkpoint is None:\n        istate.nit = 0\n"),
+  ("lbfgsb/main.py", "def minimize_lbfgsb(\n", "_ISTATE = InternalState()\n\n\ndef minimize_lbfgsb(\n"))
+M("iso_class_state", "iteration counter written to the InternalState class instead of the instance", ["C14", "C04"],
+  ("lbfgsb/main.py", "        istate.nit += 1\n", "        InternalState.nit = istate.nit + 1\n"))
+M("iso_memo_shared", "memo cell shared between ScalarFunction instances (class attributes)", ["C14", "C15"],
+  ("lbfgsb/scalar_function.py", "    def update_x(self, x) -> None:\n        # ensure that self.x is a copy of x. Don't store a reference\n        # otherwise the memoization doesn't work properly.\n        self.x = np.atleast_1d(x).astype(float)\n        self.f_updated = False\n",
+   "    def update_x(self, x) -> None:\n        # ensure that self.x is a copy of x. Don't store a reference\n        # otherwise the memoization doesn't work properly.\n        self.x = np.atleast_1d(x).astype(float)\n        ScalarFunction._last_x = self.x\n        self.f_updated = False\n"),
+  ("lbfgsb/scalar_function.py", "    def _update_fun(self) -> None:\n        if not self.f_updated:\n            self._update_fun_impl()\n            self.f_updated = True\n",
+   "    _last_x = None\n    _last_f = None\n\n    def _update_fun(self) -> None:\n        if not self.f_updated:\n            if ScalarFunction._last_f is not None and ScalarFunction._last_x is not self.x and np.array_equal(ScalarFunction._last_f[0], self.x):\n                self.f = ScalarFunction._last_f[1]\n                self.nfev += 1\n            else:\n                self._update_fun_impl()\n            ScalarFunction._last_f = (self.x.copy(), self.f)\n            self.f_updated = True\n"))
+M("iso_logging_side_effect", "a logging branch also changes a value (theta printed and rounded)", ["C14"],
+  ("lbfgsb/cauchy.py", "    if iprint >= 99 and logger is not None:\n        logger.info(\"---------------- CAUCHY entered-------------------\")\n",
+   "    if iprint >= 99 and logger is not None:\n        logger.info(\"---------------- CAUCHY entered-------------------\")\n        grad = np.round(grad, 12)\n"))
+M("iso_x0_inplace", "x0 clipped in place", ["C14"],
+  ("lbfgsb/base.py", "    return np.clip(x0.T, lb, ub).T\n", "    np.clip(x0, lb, ub, out=x0)\n    return x0\n"))
+M("iso_lowest_x_global", "line search keeps its best trial in a module-level variable", ["C14"],
+  ("lbfgsb/linesearch.py", "    best_stp: Optional[float] = None\n    best_f: float = f0\n", "    global _BEST\n    best_stp: Optional[float] = None\n    best_f: float = f0\n    _BEST = [None, f0]\n"),
+  ("lbfgsb/linesearch.py", "            if f_m1 < best_f:\n                best_f = f_m1\n                best_stp = steplength\n", "            if f_m1 < _BEST[1]:\n                _BEST[1] = f_m1\n                _BEST[0] = steplength\n            best_f, best_stp = _BEST[1], _BEST[0]\n"),
+  ("lbfgsb/linesearch.py", "def max_allowed_steplength(\n", "_BEST = [None, 0.0]\n\n\ndef max_allowed_steplength(\n"))
